@@ -226,6 +226,16 @@ def flow_taint(
         if n.kind != "stmt":
             return st
         s = n.ast
+        if isinstance(s, (ast.Assign, ast.AnnAssign, ast.AugAssign)):
+            # a local flag set to a constant (needs_check = False) is remembered so that the branch that contradicts it
+            # is not explored; any other binding of the name forgets it
+            tg = s.targets if isinstance(s, ast.Assign) else [s.target]
+            for t0 in tg:
+                for x0 in ast.walk(t0):
+                    if isinstance(x0, ast.Name):
+                        st = frozenset(z for z in st if not z.startswith(x0.id + ":="))
+            if isinstance(s, ast.Assign) and len(s.targets) == 1 and isinstance(s.targets[0], ast.Name) and isinstance(s.value, ast.Constant) and (isinstance(s.value.value, bool) or s.value.value is None):
+                st = st | {"%s:=%s" % (s.targets[0].id, bool(s.value.value))}
         if isinstance(s, ast.Assign):
             vt = is_t(s.value, st)
             for t in s.targets:
@@ -247,6 +257,10 @@ def flow_taint(
         return st
 
     def edge(n: Node, kind: str, st: FrozenSet[str]):
+        if n.kind == "test" and kind in ("true", "false") and isinstance(n.ast, ast.Name):
+            want = kind == "true"
+            if ("%s:=%s" % (n.ast.id, not want)) in st:
+                return None  # the flag is known to have the other value on this path
         if clean_on_edge is not None and kind in ("true", "false") and n.kind in ("test", "for"):
             for p in clean_on_edge(n, kind, tainted_of(st)) or ():
                 if p.startswith("~"):
